@@ -155,23 +155,18 @@ Proof.
   apply Z.div_lt_upper_bound; lia.
 Qed.
 
-Lemma RotateLeftConstant_raw wa wr n a : 0 <= wr -> 0 <= n <= wa -> 0 <= a < 2 ^ wa ->
-  RotateLeftConstant_propagate wa wr n a = umod wr (a * 2 ^ n + a / 2 ^ (wa - n)).
+(* the two halves of a rotation do not overlap: the OR is a sum *)
+Lemma rotl_lor wa n a : 0 <= n <= wa -> 0 <= a < 2 ^ wa ->
+  Z.lor (Z.shiftl a n) (Z.shiftr a (wa - n)) = a * 2 ^ n + a / 2 ^ (wa - n).
 Proof.
-  intros Hwr Hn Ha. unfold RotateLeftConstant_propagate, Wire_put, py_shl, py_shr. cbv zeta.
-  rewrite ?land_mask_umod, ?land_mask_umod', ?mod_shiftl_umod, ?umod_umod by lia. f_equal.
-  rewrite shiftr_div by lia. try (rewrite (Z.lor_comm (a / _))). try rewrite (Z.add_comm (a / _)).
-  apply lor_add_disjoint; [lia|].
+  intros Hn Ha. rewrite shiftr_div by lia. apply lor_add_disjoint; [lia|].
   pose proof (div_pow2_bound a wa (wa - n) ltac:(lia) Ha) as Hb. replace (wa - (wa - n)) with n in Hb by lia. exact Hb.
 Qed.
 
-Lemma RotateRightConstant_raw wa wr n a : 0 <= wr -> 0 <= n <= wa -> 0 <= a < 2 ^ wa ->
-  RotateRightConstant_propagate wa wr n a = umod wr (a * 2 ^ (wa - n) + a / 2 ^ n).
+Lemma rotr_lor wa n a : 0 <= n <= wa -> 0 <= a < 2 ^ wa ->
+  Z.lor (Z.shiftr a n) (Z.shiftl a (wa - n)) = a * 2 ^ (wa - n) + a / 2 ^ n.
 Proof.
-  intros Hwr Hn Ha. unfold RotateRightConstant_propagate, Wire_put, py_shl, py_shr. cbv zeta.
-  rewrite ?land_mask_umod, ?land_mask_umod', ?mod_shiftl_umod, ?umod_umod by lia. f_equal.
-  rewrite shiftr_div by lia. try (rewrite (Z.lor_comm (a / _))).
-  apply lor_add_disjoint; [lia|]. apply div_pow2_bound; lia.
+  intros Hn Ha. rewrite shiftr_div by lia. rewrite Z.lor_comm. apply lor_add_disjoint; [lia|]. apply div_pow2_bound; lia.
 Qed.
 
 (* the raw expressions are the rotations, modulo 2^wa *)
@@ -211,6 +206,61 @@ Proof.
     rewrite (umod_eq wa _ (a / 2 ^ n + a mod 2 ^ n * 2 ^ (wa - n)) (a / 2 ^ n)); [ | lia | ].
     + apply umod_small. nia.
     + rewrite Hs. rewrite (Z.div_mod a (2 ^ n)) at 1 by lia. ring.
+Qed.
+
+(* Characterisations that hold for BOTH shapes of Rotate*Constant.propagate: with the OR left un-masked
+   (`(a << n) | (a >> (w-n))`) and with the OR masked to the operand width (`... & ((1<<w)-1)`): after normalisation the
+   body is [umod wr S] or [umod wr (umod wa S)] with S the sum of the two halves. *)
+Ltac rot_norm wa n a :=
+  unfold Wire_put, py_shl, py_shr; cbv zeta;
+  rewrite ?(Z.lor_comm (Z.shiftr a (wa - n)) (Z.shiftl a n)), ?(Z.lor_comm (Z.shiftl a (wa - n)) (Z.shiftr a n));
+  rewrite ?rotl_lor, ?rotr_lor by lia;
+  rewrite ?land_mask_umod, ?land_mask_umod', ?mod_shiftl_umod by lia.
+
+(* seen through a wire at least as wide as the operand and reduced to the operand width: the rotation *)
+Lemma RotateLeftConstant_low wa ws n a : 1 <= wa <= ws -> 0 <= n <= wa -> 0 <= a < 2 ^ wa ->
+  umod wa (RotateLeftConstant_propagate wa ws n a) = rotl wa a n.
+Proof.
+  intros. unfold RotateLeftConstant_propagate. rot_norm wa n a.
+  rewrite ?umod_umod_le by lia. apply rotl_raw; lia.
+Qed.
+
+Lemma RotateRightConstant_low wa ws n a : 1 <= wa <= ws -> 0 <= n <= wa -> 0 <= a < 2 ^ wa ->
+  umod wa (RotateRightConstant_propagate wa ws n a) = rotr wa a n.
+Proof.
+  intros. unfold RotateRightConstant_propagate. rot_norm wa n a.
+  rewrite ?umod_umod_le by lia. apply rotr_raw; lia.
+Qed.
+
+(* result not wider than the operand *)
+Lemma RotateLeftConstant_correct wa wr n a : 1 <= wa -> 0 <= wr <= wa -> 0 <= n <= wa -> 0 <= a < 2 ^ wa ->
+  RotateLeftConstant_propagate wa wr n a = spec_rotl wa wr a n.
+Proof.
+  intros. unfold RotateLeftConstant_propagate, spec_rotl. rot_norm wa n a.
+  rewrite <- (rotl_raw wa n a) by lia. rewrite ?umod_umod_le by lia. reflexivity.
+Qed.
+
+Lemma RotateRightConstant_correct wa wr n a : 1 <= wa -> 0 <= wr <= wa -> 0 <= n <= wa -> 0 <= a < 2 ^ wa ->
+  RotateRightConstant_propagate wa wr n a = spec_rotr wa wr a n.
+Proof.
+  intros. unfold RotateRightConstant_propagate, spec_rotr. rot_norm wa n a.
+  rewrite <- (rotr_raw wa n a) by lia. rewrite ?umod_umod_le by lia. reflexivity.
+Qed.
+
+(* C07-ROTC-WIDE-prims: repaired in /repo, switched by fixes/C07_switch.py *)
+(* the OR is masked to the operand width: exact for every result width *)
+Lemma RotateLeftConstant_full wa wr n a : 1 <= wa -> 0 <= wr -> 0 <= n <= wa -> 0 <= a < 2 ^ wa ->
+  RotateLeftConstant_propagate wa wr n a = spec_rotl wa wr a n.
+Proof.
+  intros. unfold RotateLeftConstant_propagate, spec_rotl. rot_norm wa n a.
+  rewrite rotl_raw by lia. reflexivity.
+Qed.
+
+Lemma RotateRightConstant_full wa wr n a : 1 <= wa -> 0 <= wr -> 0 <= n <= wa -> 0 <= a < 2 ^ wa ->
+  RotateRightConstant_propagate wa wr n a = spec_rotr wa wr a n.
+Proof.
+  intros. unfold RotateRightConstant_propagate, spec_rotr. rot_norm wa n a.
+  rewrite rotr_raw by lia. reflexivity.
 Qed.
 
 (* ---- two's complement helper and the signed primitives ------------------------------------------ *)
